@@ -45,7 +45,8 @@ def bbans_for(row: dict, rng: random.Random, k: int) -> list[str]:
             out.append(b)
     while len(out) < k:
         out.append(gen.bban_for(row, rng))
-    return out + [b for b in gen.echo_bbans(row, rng) if b not in out]
+    out += [b for b in gen.echo_bbans(row, rng) if b not in out]
+    return out + [b for b in gen.word_bbans(row, rng, gen.WORDS[:4]) if b not in out]
 
 
 def run(ctx: Ctx) -> dict:
